@@ -190,8 +190,16 @@ func genItems() []string {
 	return its
 }
 
+// noOdd: only valid values and layouts (set while building the long-line cases,
+// whose round trip must be decided by the property oracle)
+var noOdd bool
+
 func genCounter() string {
-	switch rnd.Intn(10) {
+	k := rnd.Intn(10)
+	if noOdd && k == 5 {
+		k = 6
+	}
+	switch k {
 	case 0, 1, 2:
 		return Pick(rnd, words)
 	case 3:
@@ -225,8 +233,14 @@ func genError() float64 {
 	case 0:
 		return Pick(rnd, []float64{0.1, 1e-9, 0.05, 1, 123456.789, math.SmallestNonzeroFloat64, math.MaxFloat64, -2.5})
 	case 1:
+		if noOdd {
+			return math.Inf(1)
+		}
 		return Pick(rnd, []float64{math.Copysign(0, -1), math.Inf(1), math.Inf(-1), math.NaN(), math.Float64frombits(0x7ff8000000000002)})
 	case 2:
+		if noOdd {
+			return 0.25
+		}
 		return math.Float64frombits(rnd.Uint64())
 	default:
 		return 0
@@ -236,7 +250,7 @@ func genError() float64 {
 func genRecord() chartconfig.ChartConfig {
 	var r chartconfig.ChartConfig
 	val := func() string {
-		if rnd.Intn(40) == 0 {
+		if rnd.Intn(40) == 0 && !noOdd {
 			return genOddValue()
 		}
 		return genPlain()
@@ -314,7 +328,7 @@ func genStyle() rstyle {
 	}
 	s.multi = rnd.Bool()
 	s.indent = Pick(rnd, []string{"  ", "\t", "    ", "", " \t"})
-	if rnd.Intn(60) == 0 {
+	if rnd.Intn(60) == 0 && !noOdd {
 		out.Note("style-odd")
 		// layouts outside style_ok: still rendered and compared
 		switch rnd.Intn(4) {
@@ -488,6 +502,120 @@ func genRecordSet() ([]chartconfig.ChartConfig, []rstyle) {
 
 func caseRender() {
 	rs, ss := genRecordSet()
+	emitRender(rs, ss)
+}
+
+// cyclic filler of exactly k bytes that neither starts nor ends with a blank or a comma
+func filler(pattern string, k int) string {
+	if k <= 0 {
+		return ""
+	}
+	b := make([]byte, k)
+	for i := range b {
+		b[i] = pattern[i%len(pattern)]
+	}
+	if b[0] == ' ' || b[0] == ',' {
+		b[0] = 'x'
+	}
+	if b[k-1] == ' ' || b[k-1] == ',' {
+		b[k-1] = 'x'
+	}
+	return string(b)
+}
+
+func longestLine(text string) int {
+	m := 0
+	for _, l := range strings.Split(text, "\n") {
+		if len(l) > m {
+			m = len(l)
+		}
+	}
+	return m
+}
+
+// A valid record set in a valid layout with ONE physical line of exactly
+// `target` bytes (the syntax has no line length limit): a long plain value, a
+// bucket list on one line, a long comment after a value, a long comment line,
+// or one long bucket in a one-bucket-per-line list.
+func caseLongLine(mode, target int) {
+	noOdd = true
+	defer func() { noOdd = false }()
+	rs, ss := genRecordSet()
+	if len(rs) == 0 {
+		rs, ss = append(rs, genRecord()), append(ss, genStyle())
+	}
+	i := rnd.Intn(len(rs))
+	field := rnd.Intn(7)
+	pat := Pick(rnd, []string{"measure editor distribution for gopls users. ", "abc def-ghi/jk ", "x", "日本語 café ", "https://go.dev/issue/61038 "})
+	bpat := Pick(rnd, []string{"vscode,emacs,vim,", "1.21,", "c-archive,c-shared,default,exe,pie,", "b,"})
+	base, bstyle := rs[i], ss[i]
+	build := func(k int) {
+		r, s := base, bstyle
+		switch mode {
+		case 0: // long plain value
+			v := filler(pat, k)
+			switch field {
+			case 0:
+				r.Title = v
+			case 1:
+				r.Description = v
+			case 2:
+				r.Issue = append(append([]string(nil), r.Issue...), v)
+			case 3:
+				r.Type = v
+			case 4:
+				r.Program = v
+			case 5:
+				r.Module = v
+			case 6:
+				r.Version = v
+			}
+		case 1: // bucket list on one line
+			r.Counter = "gopls/long:{" + filler(bpat, k) + "}"
+			s.multi = false
+		case 2: // long comment after a value
+			r.Title = "Long comment"
+			s.f[kTitle] = fstyle{" ", " ", "#" + filler(pat, k)}
+		case 3: // long comment line
+			if field%2 == 0 {
+				s.pre = append(append([]string(nil), s.pre...), "# "+filler(pat, k))
+			} else {
+				s.post = append(append([]string(nil), s.post...), "# "+filler(pat, k))
+			}
+		case 4: // one long bucket, one bucket per line
+			r.Counter = "gopls/long:{first," + filler("bucket-name/", k) + ",last}"
+			s.multi = true
+			if s.indent == "x" || s.indent == "-" || s.indent == "\u3000" {
+				s.indent = "  "
+			}
+		}
+		rs[i], ss[i] = r, s
+	}
+	k := target
+	for tries := 0; tries < 4; tries++ {
+		build(k)
+		l := longestLine(renderAll(rs, ss))
+		if l == target {
+			break
+		}
+		k += target - l
+	}
+	out.Note(fmt.Sprintf("long-line-mode-%d", mode))
+	out.Note(fmt.Sprintf("long-line-%d", longestLine(renderAll(rs, ss))/1024*1024))
+	emitRender(rs, ss)
+}
+
+// the line lengths around bufio's initial (4 KiB) and maximal (64 KiB) buffer sizes
+func longLineCases() {
+	for mode := 0; mode < 5; mode++ {
+		for _, target := range []int{65535, 65536, 65537, 65538 + rnd.Intn(30000)} {
+			caseLongLine(mode, target)
+		}
+		caseLongLine(mode, Pick(rnd, []int{4095, 4096, 4097, 8192, 16384, 32768, 65534}))
+	}
+}
+
+func emitRender(rs []chartconfig.ChartConfig, ss []rstyle) {
 	text := renderAll(rs, ss)
 	f := []string{"render", I(int64(len(rs)))}
 	for i := range rs {
@@ -1056,6 +1184,7 @@ func main() {
 	rnd = NewRand(Seed())
 	out = NewOut(os.Args[1])
 	caseKeys()
+	longLineCases()
 	var req request
 	req.Gen = append(req.Gen, fixedGen())
 	for i := 0; i < n; i++ {
